@@ -26,8 +26,9 @@
 (*    of that struct (nullable is not carried); when the cut type is the   *)
 (*    struct itself the reference object carries, as its value, the schema *)
 (*    of the struct in whose field loop the cut happened (not of the type  *)
-(*    it names).  The unwrapping does not end on a container type that is  *)
-(*    its own element (type Tree []Tree): Diverges                         *)
+(*    it names).  A container type that is its own element (type Tree      *)
+(*    []Tree) is met again while unwrapping and described as "anything"    *)
+(*    there (before repair 9 the unwrapping did not end: Diverges)         *)
 (*  - with component export every struct below the root (the root too with *)
 (*    ExportTopLevelSchema) becomes a reference to the component named by  *)
 (*    the (caller's) type-name function; a struct whose component name is  *)
@@ -57,6 +58,14 @@
 (* what the real generator returned (fidelity warnings).                   *)
 (***************************************************************************)
 EXTENDS GoSchema
+
+(* The listed findings that have been repaired in the code (fix: commits); the model follows the *)
+(* repaired code.  The behaviour before each repair stays in the model as a variant              *)
+(* (Repaired = {} in MC_C18_unrepaired.cfg), which the design check must refute: a drift guard.  *)
+(*   8 - a struct without visible fields is no longer turned into a component reference          *)
+(*   9 - generateCycleSchemaRef stops at a container type it has already unwrapped               *)
+(*  11 - a pointer type that is the root of a call is not entered into the type table            *)
+CONSTANT Repaired
 
 RECURSIVE StripP(_)
 StripP(t) == IF U(t).k = "ptr" THEN StripP(U(t).e) ELSE t
@@ -112,7 +121,8 @@ CycleTargetH(t, hops) ==
    IF u.k \in {"ptr", "slice", "map"} THEN (IF hops = 0 THEN [k |-> "none"] ELSE CycleTargetH(u.e, hops - 1)) ELSE t
 CycleTarget(t) == CycleTargetH(t, 8)
 SelfContainer(T) == \E n \in ReachNames(T) : U(Named(n)).k \in {"slice", "map"} /\ CycleTarget(Named(n)).k = "none"
-Diverges(T) == (\E n \in ReachNames(T) : Defs(n).k = "struct" /\ EmbedsBack(Defs(n), n, 3)) \/ SelfContainer(T)
+Diverges(T) == (\E n \in ReachNames(T) : Defs(n).k = "struct" /\ EmbedsBack(Defs(n), n, 3))
+               \/ (9 \notin Repaired /\ SelfContainer(T))
 
 WithNullable(s, nullable) ==
    IF ~nullable THEN s ELSE IF DOMAIN s = {} THEN [nullable |-> TRUE] ELSE [nullable |-> TRUE] @@ s
@@ -122,13 +132,17 @@ ExportsTop(opt) == opt \in {"exporttop", "tng_exporttop"}
 UsesAllFields(opt) == opt \in {"useall", "useall_export"}
 GoNameOf(b) == IF b.k = "named" THEN b.n ELSE ""          \* reflect.Type.Name()
 (* generateCycleSchemaRef *)
-RECURSIVE CycleSchema(_, _)
-CycleSchema(name, t) ==
-   LET u == U(t) IN
-   CASE u.k = "ptr"   -> CycleSchema(name, u.e)
-     [] u.k = "slice" -> [type |-> "array", items |-> CycleSchema(name, u.e)]
-     [] u.k = "map"   -> [type |-> "object", apSchema |-> CycleSchema(name, u.e)]
+RECURSIVE CycleSchemaV(_, _, _)
+CycleSchemaV(name, t, seen) ==
+   LET u == U(t)
+       seen2 == seen \cup {t} IN
+   IF 9 \in Repaired /\ t \in seen THEN <<>>        \* already unwrapped: the empty schema
+   ELSE
+   CASE u.k = "ptr"   -> CycleSchemaV(name, u.e, seen2)
+     [] u.k = "slice" -> [type |-> "array", items |-> CycleSchemaV(name, u.e, seen2)]
+     [] u.k = "map"   -> [type |-> "object", apSchema |-> CycleSchemaV(name, u.e, seen2)]
      [] OTHER         -> [ref |-> name]
+CycleSchema(name, t) == CycleSchemaV(name, t, {})
 
 (* Generator state threaded through the depth-first generation:                                  *)
 (*   c    - Generator.Types: Go type -> finished result (consulted before anything else, in      *)
@@ -144,8 +158,11 @@ CacheHit(cache, T) == \E e \in cache : e.t = T
 CacheGet(cache, T) == (CHOOSE e \in cache : e.t = T).s
 CycleName(opt, t) == TypeNameOf(opt, GoNameOf(CycleTarget(t)))
 AsSub(opt, g) == IF Has(g, "cycle") THEN CycleSchema(CycleName(opt, g.cycle), g.cycle) ELSE g
-(* generateCycleSchemaRef registers the component name of the struct it ends at *)
-AfterChild(opt, x) == IF Has(x.s, "cycle") THEN [x.st EXCEPT !.csr = @ \cup {CycleName(opt, x.s.cycle)}, !.cyc = TRUE] ELSE x.st
+(* generateCycleSchemaRef registers the component name of the struct it ends at (if it ends at one) *)
+AfterChild(opt, x) ==
+   IF ~Has(x.s, "cycle") THEN x.st
+   ELSE IF CycleTarget(x.s.cycle).k = "none" THEN [x.st EXCEPT !.cyc = TRUE]
+   ELSE [x.st EXCEPT !.csr = @ \cup {CycleName(opt, x.s.cycle)}, !.cyc = TRUE]
 
 (* candidate fields in the order the generator visits them: sorted by JSON name, ties in *)
 (* appendFields order (sort.Sort on at most 12 elements is an insertion sort)              *)
@@ -172,7 +189,9 @@ GenC(T, parents, root, opt, st) ==
    LET b == StripP(T)
        u == U(b)
        nullable == U(T).k = "ptr" /\ ~root
-       cached(s, st2) == [s |-> s, st |-> [st2 EXCEPT !.c = @ \cup {[t |-> T, s |-> s]}]] IN
+       (* repair 11: what a pointer type got as the root of a call is not kept in the type table *)
+       cached(s, st2) == IF 11 \in Repaired /\ root /\ U(T).k = "ptr" THEN [s |-> s, st |-> st2]
+                         ELSE [s |-> s, st |-> [st2 EXCEPT !.c = @ \cup {[t |-> T, s |-> s]}]] IN
    IF b \in parents THEN [s |-> [cycle |-> b], st |-> st]
    ELSE LET ps2 == parents \cup {b} IN
    CASE u.k \in BaseKinds -> cached(WithNullable(KindSchema(u.k), nullable), st)
@@ -193,7 +212,8 @@ GenC(T, parents, root, opt, st) ==
                    s == WithNullable(IF ks = <<>> THEN <<>>
                                      ELSE [type |-> "object", pk |-> ks,
                                            ps |-> [i \in DOMAIN ks |-> g.acc[last(ks[i])].s]], nullable)
-                   isComp == ExportsComponents(opt) /\ (~root \/ ExportsTop(opt))
+                   (* repair 8: only a struct with properties becomes a component *)
+                   isComp == ExportsComponents(opt) /\ (~root \/ ExportsTop(opt)) /\ (8 \in Repaired => ks # <<>>)
                    mine == [name |-> IF isComp THEN tn ELSE GoNameOf(b), pref |-> isComp, own |-> TRUE, val |-> s]
                    held == {[name |-> TypeNameOf(opt, x), pref |-> TRUE, own |-> (b.k = "named" /\ x = b.n), val |-> s] :
                                x \in g.cuts}
